@@ -361,7 +361,7 @@ def main(report, tier, seed, workers, calibrate=False):
         e0, e1 = S.env_metric_values(0), S.env_metric_values(1)
         sampler = blk.get('sampler') or S.sampler()
         rungs = [dict(name='full', envs=[None], timeout=30 if tier == 'quick' else 200),
-                 dict(name='slices:metric-value-fixed', envs=[e0, e1], timeout=120 if tier == 'quick' else 600)]
+                 dict(name='slices:metric-value-fixed', envs=[e0, e1], timeout=300 if tier == 'quick' else 900)]
         if blk.get('sliced'):
             rungs = rungs[1:]
         process_jet(report, blk['run'], blk['obs'], rungs, sampler=sampler, workers=workers,
